@@ -109,11 +109,13 @@ def events(fn, structs=None, reads=False):
             return
         if structs and rf[0] not in structs:
             return
-        e = {"kind": kind, "struct": rf[0], "field": rf[1], "depth": rf[2], "base": rf[3], "line": node.get("line")}
+        e = {"kind": kind, "struct": rf[0], "field": rf[1], "depth": rf[2], "base": rf[3], "line": node.get("line"),
+             "pos": pos[0]}
         e.update(kw)
         out.append(e)
 
-    for n in cir.walk(fn):
+    pos = [0]       # preorder position of the node inside fn (execution order within straight-line code)
+    for pos[0], n in enumerate(cir.walk(fn)):
         k = n.get("k")
         if (k == "BinaryOperator" and n.get("op") == "=") or k == "CompoundAssignOperator" or \
                 (k == "UnaryOperator" and n.get("op") in ("++", "--")):
